@@ -169,3 +169,87 @@ Proof.
   - rewrite <- HS.
     destruct (gen_offset_to_location file [offset]) as [|l r]; reflexivity.
 Qed.
+
+(* ---------------------------------------------------------------- corollaries: translated code meets the SPEC *)
+Lemma nth_map_to_cloc_i : forall i l, to_cloc (nth i l default_CodeLocation) = nth i (map to_cloc l) zero_loc.
+Proof. intros i l. change zero_loc with (to_cloc default_CodeLocation). now rewrite map_nth. Qed.
+
+Lemma source_loc_general :
+  forall file offs i o,
+    (forall o', In o' offs -> exists k, (k <= length file)%nat /\ o' = blen (firstn k file)) ->
+    nth_error offs i = Some o ->
+    let l := nth i (gen_offset_to_location file offs) default_CodeLocation in
+    (g_offset l, g_line l, g_column l, g_line_start_offset l) =
+    (o, spec_line (encode file) o, spec_col (encode file) o + 1, spec_line_start (encode file) o).
+Proof.
+  intros file offs i o Hb Hn l.
+  pose proof (loc_general file offs i o Hb Hn) as H.
+  rewrite <- source_offset_to_location in H. unfold src_offset_to_location in H.
+  rewrite <- nth_map_to_cloc_i in H. exact H.
+Qed.
+
+Lemma source_reported_position :
+  forall file a b,
+    boundary file a -> boundary file b ->
+    spec_line (encode file) a = spec_line (encode file) b ->
+    let locs := gen_offset_to_location file [a; b] in
+    exists fmt rest,
+      gen_print_code_location (nth 0 locs default_CodeLocation) (nth 1 locs default_CodeLocation)
+      = [(fmt, spec_line (encode file) a :: spec_col (encode file) a :: rest)].
+Proof.
+  intros file a b Ha Hb Hl locs.
+  pose proof (reported_position file a b Ha Hb Hl) as H. cbv zeta in H.
+  rewrite <- source_offset_to_location in H. unfold src_offset_to_location in H.
+  rewrite <- !nth_map_to_cloc_i in H. fold locs in H.
+  rewrite source_print_code_location.
+  destruct (print_loc (to_cloc (nth 0 locs default_CodeLocation)) (to_cloc (nth 1 locs default_CodeLocation)))
+    as [[l c] [[[l2|] c2]|]]; cbn [printed_line printed_col fst snd] in H; destruct H as [<- <-];
+    cbn [render_print]; eexists; eexists; reflexivity.
+Qed.
+
+Lemma source_jsformat_position :
+  forall file a b,
+    boundary file a -> boundary file b ->
+    gen_js_args (gen_offset_to_location file (gen_js_query a b)) =
+    [spec_line (encode file) a; spec_col (encode file) a].
+Proof.
+  intros file a b Ha Hb.
+  pose proof (jsformat_position file a b Ha Hb) as H. cbv zeta in H.
+  rewrite <- source_offset_to_location in H. unfold src_offset_to_location in H.
+  rewrite <- nth_map_to_cloc_i in H.
+  rewrite source_js_args. unfold gen_js_query. rewrite H. reflexivity.
+Qed.
+
+(* ---------------------------------------------------------------- non-vacuity: multi-byte text *)
+(** "é😀\n€x" = bytes 0..1 é, 2..5 😀, 6 LF, 7..9 €, 10 x; offsets at every character boundary, a duplicate,
+    out of order, end of file *)
+Example ex_mapper_multibyte :
+  map to_cloc (gen_offset_to_location [233; 128512; 10; 8364; 120] [10; 2; 11; 2; 0; 7; 6])
+  = [mkloc 10 2 3 7 11; mkloc 2 1 3 0 6; mkloc 11 2 4 7 11; mkloc 2 1 3 0 6; mkloc 0 1 2 0 6;
+     mkloc 7 2 2 7 11; mkloc 6 1 4 0 6].
+Proof. vm_compute. reflexivity. Qed.
+Example ex_mapper_multibyte_is_model :
+  offset_to_location Cur [233; 128512; 10; 8364; 120] [10; 2; 11; 2; 0; 7; 6]
+  = [mkloc 10 2 3 7 11; mkloc 2 1 3 0 6; mkloc 11 2 4 7 11; mkloc 2 1 3 0 6; mkloc 0 1 2 0 6;
+     mkloc 7 2 2 7 11; mkloc 6 1 4 0 6].
+Proof. vm_compute. reflexivity. Qed.
+(** CR LF: CR is an ordinary character of the line *)
+Example ex_mapper_crlf :
+  map to_cloc (gen_offset_to_location [97; 13; 10; 233; 13; 10] [2; 3; 5; 7])
+  = [mkloc 2 1 4 0 2; mkloc 3 2 2 3 6; mkloc 5 2 3 3 6; mkloc 7 3 2 7 7].
+Proof. vm_compute. reflexivity. Qed.
+Example ex_boundary : boundary [233; 128512; 10; 8364; 120] 7 /\ boundary [233; 128512; 10; 8364; 120] 10.
+Proof. split; [exists 3%nat|exists 4%nat]; split; (cbn; lia) || reflexivity. Qed.
+Example ex_reported_multibyte :
+  let locs := gen_offset_to_location [233; 128512; 10; 8364; 120] [7; 10] in
+  gen_print_code_location (nth 0 locs default_CodeLocation) (nth 1 locs default_CodeLocation)
+  = [("{}:{}-{}"%string, [2; 1; 3])].
+Proof. vm_compute. reflexivity. Qed.
+Example ex_js_multibyte :
+  gen_js_args (gen_offset_to_location [233; 128512; 10; 8364; 120] (gen_js_query 10 11)) = [2; 2].
+Proof. vm_compute. reflexivity. Qed.
+(** syntax error at end of file: clamped to the last byte, column + 1 *)
+Example ex_syntax_error_eof :
+  src_syntax_error_print [233; 10; 120; 121] 5 = [("{}:{}"%string, [2; 3])]
+  /\ src_syntax_error_print [233; 10; 120; 121] 3 = [("{}:{}"%string, [2; 1])].
+Proof. vm_compute. split; reflexivity. Qed.
